@@ -12,19 +12,19 @@ LEVEL_TEXT = ("C01 is a composition; every link that is a per-function statement
               "midpoint of a covered run of cell centres is within h/2 of the centre (1-d half-cell lemma) and a positively weighted mean of such "
               "row means stays within h/2 (induction step over rows => per-axis half-cell bound for the centre of mass of a digital ball). NOT "
               "expressible as contracts: that a digital ball is connected and distinct balls are separated (exactly one droplet per original) - "
-              "geometry of lattice point sets; the cylindrical locating functions. These and the end-to-end statement are covered by seeded "
+              "geometry of lattice point sets. The cylindrical locating functions are under contract as well (z = mean cell-centre z, summed cell volumes, half-open box). These and the end-to-end statement are covered by seeded "
               "render-locate configurations on all four grid families (bounded) - hence level 'other'.")
 LEVEL_NOTE = ("ASSUMED: ndimage contracts, A-PDE (difference_vector = shortest periodic vector, transform, normalize_point), A-SUM, induction over rows / "
               "loop iterations; radially symmetric grids: inner radius 0 for the half-spacing clause; cylindrical grids bounded only (rendering across "
               "periodic z is done with explicit image droplets because of dependency defect D1); A-FP (knife-edge cells within 1e-9 of the surface "
               "are skipped by the bounded harness)")
 CONTRACTS = [c.ident for c in (rd.GetPhaseField(), rd.BinaryImage(), rd.PolarCoordinates(), lc.LocateDroplets(), lm.LocateInMaskDispatch(),
-                               lm.LocateCartesian(), lm.LocateSpherical(), dr.FromVolume(), dr.Volume(), sp.RadiusFromVolume())]
+                               lm.LocateCartesian(), lm.LocateSpherical(), lm.LocateCylSingle(), lm.LocateCylWrapper(), dr.FromVolume(), dr.Volume(), sp.RadiusFromVolume())]
 LEMMAS = ["radial-extent-within-half-a-spacing", "conversion-round-trips", "periodic-wrap-is-roll-equivariant"]
 CLAUSES = {"exactly one droplet per original": "bounded (digital-ball connectivity / separation is lattice geometry: not applicable to contracts)",
            "volume == total volume of the covered cells": "proved by composition (render contract, merge invariants, V(R(v)) == v)",
            "centre within half a spacing per axis (periodic metric)": "half-cell lemmas proved; composition over rows by induction (meta-argument); sampled",
            "radius within half a radial spacing (radially symmetric grids)": "proved (spherical contract + lemma)",
            "periodic positions inside the bounds": "proved modulo the normalize_point contract (A-PDE)",
-           "cylindrical grids": "bounded"}
+           "cylindrical grids": "function contracts proved; end-to-end bounded"}
 BOUNDED = [lm.RenderLocate()]
